@@ -98,7 +98,12 @@ def make_scenarios(ctx, count):
         s = H.Scenario("q%d" % i, meta=dict(frames=frames, own=own, mtu=cfg["mtu"], bridged=bridged, mtu_changes=mtu_changes))
         s.iface(0, **H.iface_kw(cfg)).glob(**G.global_kw(G.rand_global(rng, icon_size=50)))
         s.add("OPT sleep=0")
-        s.frames(0, frames, rng if i % 2 else None, p_gap=0.25, base=True,
+        shadow = None
+        if i % 4 == 1:
+            cfg1, fr1 = G.shadow_iface(rng, cfg, max(5, len(frames) // 4))
+            s.iface(1, **H.iface_kw(cfg1))
+            shadow = (1, fr1)
+        s.frames(0, frames, rng if i % 2 else None, p_gap=0.25, base=True, shadow=shadow,
                  inserts={k: ["MTU 0 %d %d" % (v, cfg["rxseed"])] for k, v in mtu_changes.items()})
         scns.append(s)
     return scns
@@ -238,3 +243,4 @@ def run(ctx):
     for name in ("more-bit", "bridged", "direct", "drain>=3-queries", "empty-query", "at-or-over-capacity", "mtu-changed-mid-history"):
         rep.need(name, c.get("reach:" + name, 0), 10)
     rep.need("clock_gaps_between_frames", rep.counters.get("clock_gaps_between_frames", 0), 200)
+    rep.need("inputs_of_a_second_interface_in_between", rep.counters.get("inputs_of_a_second_interface_in_between", 0), 500)
